@@ -23,17 +23,20 @@ CLAIM = (
     "(fresh reals, symmetric), weights, direction vectors, constraint parameters and the fit-space point are symbolic. z3 decides, per "
     "model and batch size, that the returned gradient / Hessian / Hessian-vector product equal the derivatives obtained by "
     "differentiating the NLL value the same object returned, that the value returned alongside equals the stand-alone NLL, and that "
-    "the transformed versions obey the chain rule with y'(x), y''(x) of each bound type. unsat = holds for all parameter points."
+    "the transformed versions obey the chain rule with y'(x), y''(x) of each bound type; the Hessian-vector product of the cfit "
+    "likelihoods is compared with the second derivative of the cfit NLL itself; and variable.SumVar (the normalisation factors of "
+    "the custom likelihood models) returns, for one to three factors, a local model with the value, gradient and Hessian of each "
+    "factor. unsat = holds for all parameter points."
 )
 NOTE = (
     "TensorFlow's own autodiff is trusted (tapes are implemented by symbolic differentiation of the expression DAG and validated "
     "against real TensorFlow in the conformance step); densities above the clip of clip_log; N_data, N_mc <= 2-3, two parameters "
-    "(+ fixed / bounded variants)"
+    "(+ fixed / bounded variants); the custom likelihood classes of model/custom.py are covered only through SumVar"
 )
 TECHNIQUE = "symbolic execution of the real gradient/Hessian assembly with uninterpreted densities carrying formal partial derivatives; oracle = DAG derivative of the returned value; z3 nlsat decides each component identity; sympy bound transforms translated node by node"
 EXPLANATION = CLAIM
 FUNCTIONS = [
-    "tf_pwa/model/model.py:sum_gradient", "tf_pwa/model/model.py:sum_hessian", "tf_pwa/model/model.py:sum_grad_hessp", "tf_pwa/model/model.py:BaseModel.nll_grad_batch",
+    "tf_pwa/variable.py:SumVar.from_call_with_hess", "tf_pwa/variable.py:SumVar.__call__", "tf_pwa/model/model.py:FCN.get_grad_hessp", "tf_pwa/model/model.py:sum_gradient", "tf_pwa/model/model.py:sum_hessian", "tf_pwa/model/model.py:sum_grad_hessp", "tf_pwa/model/model.py:BaseModel.nll_grad_batch",
     "tf_pwa/model/model.py:BaseModel.grad_hessp_batch", "tf_pwa/model/model.py:BaseModel.nll_grad_hessian", "tf_pwa/model/model.py:Model.nll_grad_hessian",
     "tf_pwa/model/model.py:FCN.nll_grad", "tf_pwa/model/model.py:FCN.nll_grad_hessian", "tf_pwa/model/model.py:FCN.grad_hessp", "tf_pwa/model/model.py:FCN.grad",
     "tf_pwa/model/model.py:GaussianConstr.get_constrain_grad", "tf_pwa/model/model.py:GaussianConstr.get_constrain_hessian", "tf_pwa/model/model.py:CombineFCN.nll_grad",
